@@ -141,6 +141,8 @@ let tape_of_line l =
   | ["LC"; "TE"; id; st] -> Some (TE (qid (int_of_string id), zi st))
   | ["LC"; "TP"; rc; n; v4; v6] -> Some (TP (zi rc, bi n, bi v4, bi v6))
   | ["LC"; "TR"; rc] -> Some (TR (zi rc))
+  | ["LC"; "TU"; n] -> Some (TU (ni n))
+  | ["LC"; "TUE"] -> Some TUE
   | ["LC"; "TK"] -> Some TK
   | ["LC"; "TKE"] -> Some TKE
   | "SERVERSTATE" :: rest -> (match field "success" rest with Some "0" -> Some TS | Some _ -> Some TG | None -> None)
@@ -184,6 +186,7 @@ let call_of_op cfg sync ws =
   let sync_of t = Hashtbl.find_opt sync t in
   match ws with
   | "cancel" :: _ -> ACancel
+  | ("setservers" | "reinit") :: _ -> ASetServers
   | ("qlen" | "fds" | "getsock" | "tmo" | "servers" | "opts" | "note") :: _ -> ANop
   | kind :: t :: rest when List.mem kind ["send"; "sendraw"; "query"; "oquery"; "search"; "osearch"; "gai"; "ghbn"; "ghba"; "gni"] ->
     (match tok_of t with
@@ -221,6 +224,13 @@ let socks_of_list s =
     let inner = String.sub s (i + 1) (String.length s - i - 2) in
     List.filter_map (fun w -> match sock_of w with Some k -> Some (nat_of_int k) | None -> None) (split_on ',' inner)
 
+(* ares_set_servers*() calls ares_servers_update() inside its own translation unit, where --wrap
+   does not reach: the simulator's own log lines around the call stand for LC TU / LC TUE *)
+let server_count cfg l =
+  let n = if l = "-" || l = "" then 0 else List.length (split_on ',' l) in
+  (* ARES_FLAG_PRIMARY trims the list after the stale servers were removed: two counts in one call *)
+  if n > 1 && List.mem "primary" cfg.flags then raise (Unsupported "setservers with primary") else n
+
 (* history = list of (input option, tape, description) *)
 let build_history cfg lines =
   let sync = sync_status lines in
@@ -243,6 +253,12 @@ let build_history cfg lines =
        let r' = order r tape (function TM (_, s, _) -> Some s | TX (s, _) -> Some s | _ -> None) in
        cur_in := Some (IProc (w', r')); cur_proc := None
      | None -> ());
+    (* ares_set_servers*() / ares_reinit() that did not get as far as ares_servers_update() *)
+    (match !cur_in with
+     | Some (IApi ASetServers) when not (List.exists (function TU _ -> true | _ -> false) tape) -> cur_in := Some (IApi ANop)
+     | _ -> ());
+    (* what ares_init() does (it installs the servers through ares_servers_update) is not part of the history *)
+    let tape = if !cur_desc = "init" then [] else tape in
     segs := (!cur_in, tape, !cur_desc) :: !segs;
     cur_in := None; cur_tape := [] in
   List.iter (fun l ->
@@ -257,15 +273,22 @@ let build_history cfg lines =
           | Some tk -> cur_in := Some (IOnCb (nat_of_int tk, call_of_op cfg sync sws))
           | None -> raise (Unsupported "oncb token"))
        | "destroy" :: _ -> cur_in := Some IDestroy
+       | "setservers" :: l :: _ -> cur_in := Some (IApi ASetServers); cur_tape := [TU (nat_of_int (server_count cfg l))]
        | ("proc" | "proct" | "procfd" | "procsel" | "run") :: _ -> ()
        | ("rsp" | "rspall" | "raw" | "rawfrom" | "zerolen" | "chunk" | "wpat" | "reset" | "eof" | "connectlater"
          | "connected" | "connfail" | "writable" | "fail" | "adv" | "advus") :: _ -> ()
-       | ("setservers" | "reinit" | "flushwrites" | "setsortlist" | "setlocalip4" | "setlocalip6" | "setlocaldev") :: _ ->
+       | ("flushwrites" | "setsortlist" | "setlocalip4" | "setlocalip6" | "setlocaldev") :: _ ->
          raise (Unsupported (List.hd op))
        | _ -> cur_in := Some (IApi (call_of_op cfg sync op)))
     | ("PROC" | "PROCSEL") :: r :: w :: _ ->
       close (); cur_desc := l;
       cur_proc := Some (socks_of_list w, socks_of_list r)
+    | "CBOP" :: "setservers" :: l0 :: _ -> cur_tape := TU (nat_of_int (server_count cfg l0)) :: !cur_tape
+    | "BADOP" :: _ when contains l "setservers" ->
+      (match !cur_tape with TU _ :: r -> cur_tape := r | _ -> ());
+      (match !cur_in with Some (IApi ASetServers) -> cur_in := Some (IApi ANop) | _ -> ())
+    | "SETSERVERS" :: ws' ->
+      if field "rc" ws' = Some "0" then cur_tape := TUE :: !cur_tape else raise (Unsupported "setservers failed")
     | "DESTROY" :: "begin" :: "auto" :: _ -> close (); cur_desc := l; in_final := true
     | "ENDSTATE" :: _ ->
       if !in_final then (final := Some (List.rev !cur_tape); cur_tape := []) else close ()
@@ -293,6 +316,10 @@ let classify head body lines supported =
 
 let fuel = nat_of_int 4000
 
+(* the tree under test: with or without fixes/C01-cancel-complete.patch (props/C01.py looks at the sources) *)
+let cancelmark = (try Sys.getenv "C01_CANCELMARK" <> "0" with Not_found -> true)
+let fixes_in_tree = if cancelmark then all_fixed else { all_fixed with fx_cancelmark = false }
+
 (* C01_DUMP=1: print the model inputs of every replayed case in Coq syntax (used to write the
    witnesses of coq/Core/Lifecycle_refuted.v) *)
 let dump = (try Sys.getenv "C01_DUMP" = "1" with Not_found -> false)
@@ -311,7 +338,7 @@ let tev_str = function
   | TX (s, st) -> Printf.sprintf "TX %s %s" (ns s) (zs st)
   | TCL s -> "TCL " ^ ns s
   | TE (q, st) -> Printf.sprintf "TE %s %s" (ns q) (zs st)
-  | TS -> "TS" | TG -> "TG" | TK -> "TK" | TKE -> "TKE"
+  | TS -> "TS" | TG -> "TG" | TK -> "TK" | TKE -> "TKE" | TU n -> "TU " ^ ns n | TUE -> "TUE"
   | TP (rc, a, b, c) -> Printf.sprintf "TP %s %s %s %s" (zs rc) (bs a) (bs b) (bs c)
   | TR rc -> "TR " ^ zs rc
 let call_str = function
@@ -324,7 +351,7 @@ let call_str = function
   | AGni (t, l, b) -> Printf.sprintf "AGni %s %s %s" (ns t) (ls bs l) (bs b)
   | AGai (t, l, f, lk, lh) -> Printf.sprintf "AGai %s %s %s %s %s" (ns t) (ls bs l) (ns f) (ls bs lk) (bs lh)
   | AGhbn (t, l, f, lk, lh) -> Printf.sprintf "AGhbn %s %s %s %s %s" (ns t) (ls bs l) (ns f) (ls bs lk) (bs lh)
-  | ACancel -> "ACancel" | ANop -> "ANop"
+  | ACancel -> "ACancel" | ANop -> "ANop" | ASetServers -> "ASetServers"
 let input_str = function
   | IApi c -> "IApi (" ^ call_str c ^ ")"
   | IOnCb (t, c) -> Printf.sprintf "IOnCb %s (%s)" (ns t) (call_str c)
@@ -367,7 +394,6 @@ let () =
         (try
           if List.exists (fun (k', _) -> List.mem k' ["failalloc"; "hosts"; "resolvconf"; "hostaliases"; "localdomain"; "resoptions"; "csv"; "pendingwritecb"]) cfg.keys
           then raise (Unsupported "config");
-          if cfg.nservers = 0 then raise (Unsupported "no servers");
           let (segs, final) = build_history cfg lines in
           if dump then begin
             Printf.printf "(* case %d: %s *)\nDefinition h%d : list (input * list tev) := [\n%s].\nDefinition f%d : list tev := %s.\n" k line k
@@ -375,11 +401,11 @@ let () =
                  | Some i -> Some (Printf.sprintf "  (%s, %s)" (input_str i) (ls tev_str tape)) | None -> None) segs))
               k (match final with Some t -> ls tev_str t | None -> "[]")
           end;
-          let mcfg = { cf_fix = all_fixed; cf_max_tries = nat_of_int (cfg.nservers * cfg.tries);
+          let mcfg = { cf_fix = fixes_in_tree; cf_tries = nat_of_int cfg.tries; cf_nservers = nat_of_int cfg.nservers;
                        cf_igntc = List.mem "igntc" cfg.flags; cf_nocheckresp = List.mem "nocheckresp" cfg.flags;
                        cf_dns0x20 = List.mem "dns0x20" cfg.flags } in
           (* step by step, to name the operation at which model and implementation part *)
-          let st = ref init_state in
+          let st = ref (init_state mcfg) in
           let stop = ref false in
           List.iter (fun (inp, tape, desc) ->
             if not !stop && not (!st).st_destroying then
